@@ -472,6 +472,9 @@ INSPECTORS = [
     ("getf", "(getf fa E)"), ("fields", "(o1 fields E)"), ("hasf", "(hasf fa E)"), ("remove", "(remove fa E)"),
     ("insert", "(ins fz E (n 1))"), ("amap", "(amap (lam q (v q)) E)"), ("rmap", "(rmap (lam q (lam w (v w))) E)"),
     ("freeze", "(o1 freeze E)"),
+    # `seq` first (allowed), then inspect the same value again: the forced thunk must still hold the seal
+    ("seq-then-add", "(seq E (o2 add E (n 1)))"), ("seq-then-isnum", "(seq E (o1 isnum E))"),
+    ("let-seq-then-eq", "(let sq E (seq (v sq) (o2 eq (v sq) (n 1))))"),
     ("chk-num", "(ann num E)"), ("chk-fun", "(ann (-> dyn dyn) E)"), ("chk-arr", "(ann (arr dyn) E)"),
     ("chk-rec", "(ann (rect dyn) E)"),
 ]
